@@ -15,7 +15,7 @@
    Both hypotheses are necessary: nested_shared_queue_refuted, removed_handlers_callback_lost_refuted. *)
 From Common Require Import Prelude.
 From Coq Require Import Sorting.Sorted.
-From C02 Require Import Model LemSync LemQueue Lemmas.
+From C02 Require Import Model Relay ModeCtl LemSync LemQueue Lemmas LemRelay LemModeCtl.
 Open Scope Z_scope.
 
 (* No later handler runs while an earlier handler's wait is outstanding: a dispatcher that is about to run its
@@ -131,40 +131,170 @@ Example queue_handler_kwargs_sat :
 Proof. exact ex_args. Qed.
 Print Assumptions queue_handler_kwargs_sat.
 
-(* relay: handler number i is called with the posted kwargs updated by the dict results of handlers 0..i-1 (each
-   applied to what that handler saw); the callback gets the final kwargs *)
+(* relay (hs = the event's handlers in priority order, st0 = posted kwargs and optional _min_priority):
+   the calls made are exactly [calls TRelay [] hs st0]: handler number i is called - unless _min_priority blocks it -
+   with the kwargs as updated by the results of ALL handlers 0..i-1 (st_after (firstn i hs)), overridden by the kwargs
+   it was registered with (hview); the callback gets the final kwargs.  hview and a dict result are dict updates: the
+   last binding of a key wins, every other key passes through - in particular whether the posted kwargs were empty
+   makes no difference. *)
 Theorem relay_fold :
-  forall hs kw,
-    let o := run_sync TRelay hs kw [] RNone in
-    (forall i h, nth_error hs i = Some h -> nth_error (so_seen o) i = Some (sh_id h, relay_view hs kw i)) /\
-    length (so_seen o) = length hs /\
-    so_kwargs o = relay_kwargs hs kw.
+  forall hs st0,
+    let o := run_sync TRelay hs st0 [] RNone in
+    so_seen o = calls TRelay [] hs st0 /\ so_st o = st_after TRelay hs st0 /\
+    (forall h st k, kw_get k (fst (hview h st)) = last_binding k (sh_kw h) (kw_get k (fst st)) /\ snd (hview h st) = snd st) /\
+    (forall d st k, kw_get k (fst (apply_res TRelay (RDict d) st)) = last_binding k d (kw_get k (fst st))) /\
+    (forall d m st k, kw_get k (fst (apply_res TRelay (RDictMP d m) st)) = last_binding k d (kw_get k (fst st)) /\
+                      snd (apply_res TRelay (RDictMP d m) st) = Some m).
 Proof. exact relay_fold_l. Qed.
 Print Assumptions relay_fold.
 
 Example relay_fold_sat :
-  let hs := [mkSH 1 (beh_fun (BIncr 1)); mkSH 2 (beh_fun (BConst (RDict [(2, 7)]))); mkSH 3 (beh_fun (BIncr 1))] in
-  so_seen (run_sync TRelay hs [(1, 5)] [] RNone) = [(1, [(1, 5)]); (2, [(1, 6)]); (3, [(1, 6); (2, 7)])] /\
-  so_kwargs (run_sync TRelay hs [(1, 5)] [] RNone) = [(1, 7); (2, 7)].
+  so_seen (run_sync TRelay ex_relay_hs ([], None) [] RNone)
+    = [(1, ([], None)); (2, ([(1, 10); (9, 2)], None)); (3, ([(1, 11)], None))] /\
+  so_st (run_sync TRelay ex_relay_hs ([], None) [] RNone) = ([(1, 12)], None) /\
+  calls TRelay [] ex_relay_hs ([], None) = so_seen (run_sync TRelay ex_relay_hs ([], None) [] RNone).
 Proof. exact ex_relay. Qed.
 Print Assumptions relay_fold_sat.
 
-(* boolean: handlers after the first one that returns False are not called and the callback gets
-   ev_result = False; if none returns False all are called and ev_result is not False *)
+(* boolean: the dispatch stops at the first handler that is reached (not blocked) and returns False: the calls made
+   are those for the handlers up to and including it, the callback gets ev_result = False and the posted data kwargs;
+   if no handler aborts all unblocked handlers are called and ev_result is not False *)
 Theorem boolean_first_false :
-  forall hs kw,
-    let o := run_sync TBoolean hs kw [] RNone in
+  forall hs st0,
+    let o := run_sync TBoolean hs st0 [] RNone in
     (forall pre h post, hs = pre ++ h :: post ->
-       (forall x, In x pre -> is_false (sh_res x kw) = false) -> is_false (sh_res h kw) = true ->
-       so_seen o = map (fun h => (sh_id h, kw)) (pre ++ [h]) /\ so_kwargs o = kw /\ callback_evres o = EFalse) /\
-    ((forall x, In x hs -> is_false (sh_res x kw) = false) ->
-       so_seen o = map (fun h => (sh_id h, kw)) hs /\ so_kwargs o = kw /\ callback_evres o <> EFalse).
+       no_abort TBoolean pre st0 -> aborts TBoolean h (st_after TBoolean pre st0) = true ->
+       so_seen o = calls TBoolean [] (pre ++ [h]) st0 /\ so_st o = st_after TBoolean pre st0 /\
+       fst (so_st o) = fst st0 /\ callback_evres o = EFalse) /\
+    (no_abort TBoolean hs st0 ->
+       so_seen o = calls TBoolean [] hs st0 /\ so_st o = st_after TBoolean hs st0 /\
+       fst (so_st o) = fst st0 /\ callback_evres o <> EFalse).
 Proof. exact boolean_first_false_l. Qed.
 Print Assumptions boolean_first_false.
 
 Example boolean_first_false_sat :
-  let hs := [mkSH 1 (beh_fun (BConst (RBool true))); mkSH 2 (beh_fun (BFalseIf 1 5)); mkSH 3 (beh_fun (BConst RNone))] in
-  map fst (so_seen (run_sync TBoolean hs [(1, 5)] [] RNone)) = [1; 2] /\
-  callback_evres (run_sync TBoolean hs [(1, 5)] [] RNone) = EFalse.
+  map fst (so_seen (run_sync TBoolean ex_boolean_hs ([(1, 4)], None) [] RNone)) = [1; 3] /\
+  callback_evres (run_sync TBoolean ex_boolean_hs ([(1, 4)], None) [] RNone) = EFalse /\
+  so_st (run_sync TBoolean ex_boolean_hs ([(1, 4)], None) [] RNone) = ([(1, 4)], Some (0, [(7, 5)])) /\
+  no_abort TBoolean (firstn 2 ex_boolean_hs) ([(1, 4)], None) /\
+  aborts TBoolean (mkSH 3 2 [(1, 5)] None (beh_fun (BFalseIf 1 5)))
+         (st_after TBoolean (firstn 2 ex_boolean_hs) ([(1, 4)], None)) = true.
 Proof. exact ex_boolean. Qed.
 Print Assumptions boolean_first_false_sat.
+
+(* ---------------------------------------------------------------------------------------------- *)
+(* Clients of queue events: queue_relay_player (several contexts) and queue_event_player.
+
+   The relay player keeps two tables - the event manager's registry of its wake-up handlers (rs_h) and its
+   instance dicts (rs_d).  For EVERY history of plays, wait_for events and context clears they stay in step
+   (RInv: the dict entries are exactly the entries of the registered handlers, keys and queues are unique), and the
+   only error the player can raise is the double lock of a queue it already holds: `_callback` never fails with
+   "Queue missing in instance dict". *)
+Theorem relay_tables_agree :
+  RInv rs_init /\
+  forall rs o, RInv rs ->
+    RInv (fst (r_op rs o)) /\
+    rs_err (fst (r_op rs o)) =
+      (rs_err rs || match o with RPlay _ _ _ q => existsb (fun e => Nat.eqb (de_q e) q) (rs_d rs) | _ => false end)%bool.
+Proof. exact relay_tables_agree_l. Qed.
+Print Assumptions relay_tables_agree.
+
+(* A wait_for event releases exactly the queues whose relay waits for it (in the registry's priority order), a stopping
+   context exactly its own queues (insertion order); handlers and dict entries of every other relay are untouched. *)
+Theorem relay_release_exact :
+  forall rs, RInv rs ->
+  (forall w, r_post w rs =
+     (mkRS (filter (fun h => negb (wh_ev h =? w)) (rs_h rs)) (map ent (filter (fun h => negb (wh_ev h =? w)) (rs_h rs)))
+           (rs_next rs) (rs_err rs),
+      map wh_q (w_sort (filter (fun h => wh_ev h =? w) (rs_h rs))))) /\
+  (forall c, r_clear c rs =
+     (mkRS (filter (fun h => negb (wh_ctx h =? c)) (rs_h rs)) (map ent (filter (fun h => negb (wh_ctx h =? c)) (rs_h rs)))
+           (rs_next rs) (rs_err rs),
+      map wh_q (filter (fun h => wh_ctx h =? c) (rs_h rs)))).
+Proof. exact relay_release_exact_l. Qed.
+Print Assumptions relay_release_exact.
+
+(* No wait is orphaned: every queue the player holds has its wake-up handler registered; posting that handler's event,
+   or clearing that handler's context, releases the queue, and afterwards the player no longer holds it (released
+   exactly once). *)
+Theorem relay_no_orphan :
+  forall rs e, RInv rs -> In e (rs_d rs) ->
+  exists h, In h (rs_h rs) /\ e = ent h /\
+    In (de_q e) (snd (r_post (wh_ev h) rs)) /\ ~ In (de_q e) (map de_q (rs_d (fst (r_post (wh_ev h) rs)))) /\
+    In (de_q e) (snd (r_clear (de_ctx e) rs)) /\ ~ In (de_q e) (map de_q (rs_d (fst (r_clear (de_ctx e) rs)))).
+Proof. exact relay_no_orphan_l. Qed.
+Print Assumptions relay_no_orphan.
+
+(* The composition used by the correspondence run (relay player + queue_event_player + mode start/stop on top of the
+   event-manager machine) only produces reachable machine states - queue_handlers_sequential and
+   queue_callback_once_after_waits_partial apply to it - and keeps the relay tables in step. *)
+Theorem relay_driver_reachable :
+  forall rc qc regs ops,
+  forallb (fun eh => fresh_h (snd eh)) regs = true -> forallb cop_fresh ops = true ->
+  let cs := fold_left (c_step rc qc) ops (mkCS (init_state (ctx_handlers rc qc 0 ++ regs)) rs_init 0%nat) in
+  reachable false (cs_m cs) /\ RInv (cs_r cs).
+Proof. exact relay_driver_reachable_l. Qed.
+Print Assumptions relay_driver_reachable.
+
+Example relay_contexts_sat :
+  reachable false (cs_m ex_cs) /\ RInv (cs_r ex_cs) /\
+  map wh_q (rs_h (cs_r ex_cs)) = [0; 1]%nat /\ map wh_ctx (rs_h (cs_r ex_cs)) = [0; 1] /\
+  existsb (obs_eqb (LCallback 2)) (log (cs_m ex_cs)) = true /\
+  existsb (obs_eqb (LCallback 0)) (log (cs_m ex_cs)) = false /\
+  (let cs := c_step ex_rc ex_qc ex_cs (CWaitFor 1) in
+   rs_h (cs_r cs) = [] /\ existsb (obs_eqb (LCallback 0)) (log (cs_m cs)) = true /\
+   existsb (obs_eqb (LCallback 1)) (log (cs_m cs)) = true /\ outst (cs_m cs) = []).
+Proof. exact ex_relay_contexts. Qed.
+Print Assumptions relay_contexts_sat.
+
+(* queue_event_player as it was: an entry with args and events_when_finished; its queue event completes and the
+   callback is called with the posted kwargs, which `_callback(self, event, s)` rejects (TypeError out of the loop);
+   with fixes/C02-queue-event-player-args-callback.patch the call is accepted. *)
+Theorem qep_args_callback_refuted :
+  exists qc ops e,
+    let cs := fold_left (c_step [] qc) ops (mkCS (init_state (ctx_handlers [] qc 0)) rs_init 0%nat) in
+    In e qc /\ existsb (obs_eqb (LPostQ 1)) (log (cs_m cs)) = true /\ existsb (obs_eqb (LCallback 1)) (log (cs_m cs)) = true /\
+    err (cs_m cs) = false /\
+    qep_callback_accepts false (kw_norm (qc_args e)) = false /\ qep_callback_accepts true (kw_norm (qc_args e)) = true.
+Proof. exact qep_args_callback_refuted_l. Qed.
+Print Assumptions qep_args_callback_refuted.
+
+(* ---------------------------------------------------------------------------------------------- *)
+(* Nested client: ModeController._ball_ending + _mode_stopped_callback over game modes in ARBITRARY lifecycle phases
+   (idle / active / already stopping with their mode_<n>_stopping queue event held open by anybody for any time).
+   [mc_reach cfg st]: st is reached from any set of modes by any history of mode starts, stops by third parties,
+   completions of mode stops and ball_ending events (a new ball_ending only after the previous one completed).
+   For every such state:
+   - no Double lock / Not locked error;
+   - the controller's wait on the ball_ending queue is outstanding EXACTLY as long as some mode it asked to stop has
+     not finished stopping;
+   - mc_done (completions of ball_ending) goes up by one exactly when the queue goes from held to free (or at a
+     ball_ending with nothing to wait for): the queue is cleared exactly once per ball_ending;
+   - a ball_ending asks EVERY running game mode with stop_on_ball_end - active or already stopping - and waits. *)
+Theorem ballend_waits_for_modes :
+  forall cfg st, mc_reach cfg st ->
+  mc_err st = false /\
+  (mc_locked st = true <-> exists m, In m (mc_modes st) /\ gm_cbs m = 1%nat /\ gm_phase m = MStopping) /\
+  (forall o, op_ok st o -> done_spec st (mc_op st o) o) /\
+  (mc_locked st = false -> forall i m, nth_error (mc_modes st) i = Some m -> counted m = true ->
+     let st' := mc_op st OpBallEnding in
+     mc_locked st' = true /\ mc_done st' = mc_done st /\
+     exists m', nth_error (mc_modes st') i = Some m' /\ gm_cbs m' = 1%nat /\ gm_phase m' = MStopping).
+Proof. exact ballend_waits_for_modes_l. Qed.
+Print Assumptions ballend_waits_for_modes.
+
+(* the driver of the correspondence run stays inside mc_reach *)
+Theorem ballend_driver_reachable :
+  forall cfg holds st o, mc_reach cfg st -> (o = BBallEnding -> mc_locked st = false) -> mc_reach cfg (be_step holds st o).
+Proof. exact be_step_reach. Qed.
+Print Assumptions ballend_driver_reachable.
+
+Example ballend_waits_for_modes_sat :
+  let st := fold_left (be_step [true; false; false]) ex_mc_ops (mc_init ex_mc_cfg) in
+  mc_locked st = true /\ mc_count st = 1 /\ mc_done st = 0%nat /\
+  map (fun m => phase_code (gm_phase m)) (mc_modes st) = [2; 0; 1] /\
+  (let st2 := be_step [true; false; false] st (BRelease 0) in
+   mc_locked st2 = false /\ mc_done st2 = 1%nat /\ mc_err st2 = false /\
+   map (fun m => phase_code (gm_phase m)) (mc_modes st2) = [0; 0; 1]).
+Proof. exact ex_ballend. Qed.
+Print Assumptions ballend_waits_for_modes_sat.
